@@ -6,14 +6,14 @@ from vlib.rtc.lib import *  # noqa
 
 RULE = ('one pair (x, xp) + a free variable: every transition relation of 3 variables x every admissible source/target x '
         'both quantifiers x every admissible qvars x every order with the pair adjacent (either way round) [preimage] or '
-        'any order [image], rename/qvars given by name and by level, dd.bdd and dd.autoref; two and three pairs sampled. '
+        'any order [image], rename/qvars given by name and by level, dd.bdd and dd.autoref; two and three pairs sampled (30 % with dynamic reordering enabled and a threshold the call crosses). '
         'Documented preconditions enforced on inputs: keys disjoint from values; image: each rename target is quantified '
         'or absent from both operands; preimage: pairs adjacent and target independent of the rename values. Inputs '
         'outside them are counted (outside_precondition), not judged. Oracle: rename, conjoin, quantify on truth tables. Level-shift histories '
         '(lib.shift_history: two pairs kept adjacent, unused variables between them undeclared / declared, node numbers re-used). '
         'non-trivial: result non-constant; distinct = (op, trans tt, set tt, qvars, quantifier, order).')
 EXHAUSTIVE = {'quick': False, 'thorough': True}
-REQUIRED_COUNTERS = ['image-checked', 'preimage-checked', 'image-nonadjacent-checked', 'products-after-level-shift']
+REQUIRED_COUNTERS = ['image-checked', 'preimage-checked', 'image-nonadjacent-checked', 'products-after-level-shift', 'products-with-dynamic-reordering']
 
 
 def bounds(tier):
@@ -170,10 +170,17 @@ def case_multi(c, res):
         want = _preimage_oracle(tr, st, ren, qv, fa, names)
     u, v = build(b, tr, names), build(b, st, names)
     b.incref(u); b.incref(v)
+    dyn = rnd.random() < .3
+    if dyn:
+        # dynamic reordering enabled with a threshold that the call itself crosses (operands are referenced): the product is the same
+        m.configure(reordering=True)
+        b._last_len = rnd.choice([1, 2, len(b), len(b) + 2])
+        res.count('products-with-dynamic-reordering')
     r = _call(kind, m, b, auto, as_levels, u, v, ren, qv, fa)
     got = den(b, r, names)
     require(got == want, f'{kind}#post:relational-product',
-            lambda: f'pairs={ren} qvars={qv} forall={fa} trans={tr} set={st} order={order}: got {got} want {want}')
+            lambda: f'pairs={ren} qvars={qv} forall={fa} trans={tr} set={st} order={order} dynamic-reordering={dyn}: got {got} want {want}')
+    require(den(b, u, names) == tr and den(b, v, names) == st, f'{kind}#post:operands-unchanged', lambda: f'dynamic-reordering={dyn}')
     res.count(kind + '-checked')
     wf(b, names)
     b.decref(u); b.decref(v)
